@@ -10,30 +10,24 @@ open Rv Rv.Resp Rv.Spec Rv.RespL Rv.StreamTo
 /-! ### the blob branch -/
 
 theorem copyN_all (wr : Wr) (hw : wr.budget = none) (s tl : List UInt8) (hs : 0 < s.length) :
-    copyN wr (s.length : Int) (s ++ tl) = ⟨s.length, false, { wr with out := wr.out ++ s }, tl⟩ := by
+    copyN wr (s.length : Int) (s ++ tl) = ⟨s.length, false, { wr with out := wr.out ++ s }, tl, 0⟩ := by
   unfold copyN
   have h1 : ¬ ((s.length : Int) ≤ 0) := by omega
   have h2 : min (s.length : Int).toNat (s ++ tl).length = s.length := by simp
-  simp only [h1, if_false, hw, h2, List.take_left', List.drop_left']
+  simp only [h1, if_false, hw, h2, List.take_left', List.drop_left', Int.sub_self]
 
-theorem wrap_full (n w : Nat) (h : w ≤ n) (_hn : n < 9223372036854775808) (hk : n + 2 - w < 9223372036854775808) :
-    wrap64 (wrap64 ((n : Int) + 2) - (w : Int)) = ((n + 2 - w : Nat) : Int) := by
+theorem wrap_small (k : Nat) (hk : k < 9223372036854775808) : wrap64 (k : Int) = k := by
   unfold wrap64; omega
 
-theorem finishBlob_ok (n : Nat) (hn : n < 9223372036854775808) (w : Wr) (rest : List UInt8) :
-    finishBlob (wrap64 ((n : Int) + 2)) ⟨n, false, w, 13 :: 10 :: rest⟩ = ⟨n, .none, true, rest, w⟩ := by
+theorem finishBlob_two (n : Nat) (failed : Bool) (w : Wr) (rest : List UInt8) (l : Int) :
+    finishBlob 2 ⟨n, failed, w, 13 :: 10 :: rest, l⟩ = ⟨n, if failed then .writer else .none, true, rest, w⟩ := by
   unfold finishBlob
-  have hk := wrap_full n n (Nat.le_refl _) hn (by omega)
-  have h2 : n + 2 - n = 2 := by omega
-  simp only [hk, h2]
   simp
 
-theorem finishBlob_zero (w : Wr) (rest : List UInt8) :
-    finishBlob 2 ⟨0, false, w, 13 :: 10 :: rest⟩ = ⟨0, .none, true, rest, w⟩ := by
-  unfold finishBlob
-  have hk : wrap64 ((2 : Int) - ((0 : Nat) : Int)) = 2 := by unfold wrap64; omega
-  simp only [hk]
-  simp
+theorem fullAfter_zero (n : Nat) (failed : Bool) (w : Wr) (r : List UInt8) : fullAfter ⟨n, failed, w, r, 0⟩ = 2 := by
+  unfold fullAfter
+  have := wrap_small 2 (by omega)
+  simpa using this
 
 theorem isBlobLike_of {t : UInt8} (ht : t = 36 ∨ t = 61 ∨ t = 59) : isBlobLike t = true := by
   rcases ht with h | h | h <;> subst h <;> decide
@@ -56,13 +50,12 @@ theorem streamTo_blob (B : Nat) (hb : 32 ≤ B) (f : Nat) (t : UInt8) (ht : t = 
     subst hnil
     have ht59 : ¬ (t = 59) := fun e => hne e rfl
     simp only [List.length_nil, Int.natCast_zero, ne_eq, not_true, if_false, ht59, List.nil_append, crlf,
-      List.cons_append, finishBlob_zero, List.append_nil]
+      List.cons_append, finishBlob_two, List.append_nil, Bool.false_eq_true]
   · have hpos : 0 < s.length := by omega
     have h2 : (s.length : Int) ≠ 0 := by omega
     simp only [h2, ne_eq, not_false_eq_true, if_true]
-    rw [List.append_assoc, copyN_all wr hw s _ hpos]
-    simp only [crlf, List.cons_append, List.nil_append]
-    rw [finishBlob_ok s.length hs]
+    rw [List.append_assoc, copyN_all wr hw s _ hpos, fullAfter_zero]
+    simp only [crlf, List.cons_append, List.nil_append, finishBlob_two, Bool.false_eq_true, if_false]
 
 /-- `;0\r\n`: the end marker of a chunked string writes nothing and is clean -/
 theorem streamTo_chunk_end (B : Nat) (hb : 32 ≤ B) (f : Nat) (wr : Wr) (rest : List UInt8) :
